@@ -16,16 +16,17 @@ Cases == IF Mode = "cover" THEN ndJsonDeserialize(IOEnv.VERIF_CASES) ELSE <<>>
 Ran == {<<Cases[i].f, Cases[i].backend, Cases[i].dtype, Cases[i].layout>> : i \in 1..Len(Cases)}
 RanOK == {<<Cases[i].f, Cases[i].backend, Cases[i].dtype, Cases[i].layout>> : i \in {j \in 1..Len(Cases) : ~Cases[j].raised}}
 
+Summary == "ran_" \o ToString(Cardinality(Ran)) \o "_supported_" \o ToString(Cardinality(Configs))
+           \o "_supported_and_returned_" \o ToString(Cardinality(RanOK \cap Configs))
+           \o "_missing_" \o ToString(Cardinality(Configs \ Ran))
 Cover ==
-  LET missing == Configs \ Ran
-      full == IOEnv.VERIF_FULL = "1"
-      clause == IF full /\ missing # {} THEN "configs_missing"
-                ELSE IF \E c \in Ran : c \notin All THEN "unknown_config"
-                ELSE "ok"
-  IN PrintT(<<"VERDICT", 1, clause,
-              "ran_" \o ToString(Cardinality(Ran)) \o "_supported_" \o ToString(Cardinality(Configs))
-              \o "_supported_and_ran_ok_" \o ToString(Cardinality(RanOK \cap Configs))
-              \o "_missing_" \o ToString(Cardinality(missing))>>)
+  LET full == IOEnv.VERIF_FULL = "1"
+      incomplete == full /\ Configs \ Ran # {}
+  IN \A i \in 1..Len(Cases) :
+       PrintT(<<"VERDICT", i,
+                IF <<Cases[i].f, Cases[i].backend, Cases[i].dtype, Cases[i].layout>> \notin All THEN "unknown_config"
+                ELSE IF incomplete THEN "configs_missing" ELSE "ok",
+                Summary>>)
 
 ASSUME IF Mode = "emit" THEN Emit ELSE Cover
 =============================================================================
